@@ -349,3 +349,33 @@ func vh_emit_ipv4() {
 	}
 	vreach("ipv4")
 }
+
+// C13 through the network layer: an echo request whose frame carries link-layer padding
+// behind the IP datagram (Ethernet pads short frames) is answered with exactly the request's
+// payload - the padding is not part of the message.
+func vh_echo4_padded() {
+	env := vhNewEnv()
+	e := env.e
+	n := vnChoice("len", 3)
+	req := vhICMPReq(8, n)
+	trailer := vnChoice("trailer", 4)
+	b := make([]byte, 20+len(req)+trailer)
+	copy(b, vhHeader(vnU16("id"), 0, 0, len(req), 1)[:20])
+	copy(b[20:], req)
+	copy(b[20+len(req):], vnBytes("padding", trailer))
+	// the first view holds the IP and ICMP headers (what link endpoints deliver); the split, if
+	// any, falls inside the payload or the padding
+	e.HandlePacket(&env.r, vhPkt(b, 28+vnChoice("split", 4)))
+	vassert(len(e.echoRequests) == 1 && len(env.link.Sent) == 0, "the request is queued once")
+	r := <-e.echoRequests
+	err := sendPing4(&r.r, 0, r.v)
+	vassert(err == nil && len(env.link.Sent) == 1, "each request is answered by exactly one packet")
+	f := env.link.Sent[0]
+	msg := append(append([]byte{}, f.Hdr[20:]...), f.Payload...)
+	vassert(len(msg) == 8+n, "the reply has the length of the request's ICMP message (no link-layer padding)")
+	vassert(vhSame(msg[4:8], req[4:8]) && vhSame(msg[8:], req[8:]), "identifier, sequence number and payload are mirrored")
+	ck := uint16(msg[2])<<8 | uint16(msg[3])
+	msg[2], msg[3] = 0, 0
+	vassert(ck == ^vhSum(msg, 0), "the ICMP checksum is the complemented RFC 1071 sum of the message")
+	vreach("answered")
+}
